@@ -190,16 +190,16 @@ def gen_tables() -> str:
     wrappers = sorted(set(table(allow, "WRAPPER_COMMANDS", "WRAPPER_COMMANDS")))
     safe_targets = sorted(set(table(an, "SAFE_REDIRECT_TARGETS", "SAFE_REDIRECT_TARGETS")))
 
-    # redirect operator tuple: the `op in (...)` test inside _analyze_redirects
-    red_ops: list[str] | None = None
-    f = find_func(an, "_analyze_redirects")
-    if f is not None:
-        for n in ast.walk(f):
-            if isinstance(n, ast.Compare) and isinstance(n.left, ast.Name) and n.left.id == "op" and len(n.ops) == 1 and isinstance(n.ops[0], ast.In):
-                red_ops = const_strs(n.comparators[0])
-    if red_ops is None:
-        MISSING.append("redirectOps")
-        red_ops = []
+    # the set of operators (fd prefix removed) that open their target for writing
+    red_ops = sorted(set(table(an, "_WRITE_REDIRECT_OPS", "redirectOps")))
+    # the fd-prefix regular expression must be the one the model implements
+    fdre = module_assign(an, "_FD_PREFIX_RE")
+    fd_src = None
+    if isinstance(fdre, ast.Call) and fdre.args and isinstance(fdre.args[0], ast.Constant):
+        fd_src = fdre.args[0].value
+    if fd_src is None:
+        MISSING.append("_FD_PREFIX_RE")
+        fd_src = ""
 
     # arithmetic attribute tuple in _find_cmdsubs_in_arith: `for attr in (...)`
     arith_attrs: list[str] | None = None
@@ -332,8 +332,11 @@ def gen_tables() -> str:
         "/-- `SAFE_REDIRECT_TARGETS` (core/analyzer.py), sorted -/",
         "def safeRedirectTargets : List String := " + lean_list(safe_targets),
         "",
-        "/-- the operator tuple tested in `_analyze_redirects` -/",
+        "/-- `_WRITE_REDIRECT_OPS`: operators (fd prefix removed) that open the target for writing, sorted -/",
         "def redirectOps : List String := " + lean_list(red_ops),
+        "",
+        "/-- source of `_FD_PREFIX_RE` -/",
+        "def fdPrefixRe : String := " + lean_str(fd_src),
         "",
         "/-- the attribute tuple walked by `_find_cmdsubs_in_arith`, in order -/",
         "def arithWalkedAttrs : List String := " + lean_list(arith_attrs),
